@@ -108,7 +108,8 @@ def isReplName (n : List Char) : Bool := replNames.contains n
 def valOk : SVal → Bool
   | .int _ _ => true
   | .dec _ _ frac => !frac.isEmpty && frac.all isAsciiDigit
-  | .bool b sp => lower sp == (if b then "true".toList else "false".toList)
+  | .bool b sp => isIdent sp && !(sp.head?.map isDigit).getD true &&
+      lower sp == (if b then "true".toList else "false".toList)
   | .quoted _ => true
   | .bare w => isIdent w && !(w.head?.map isDigit).getD true && lower w != "true".toList && lower w != "false".toList
 
